@@ -1,5 +1,5 @@
 import Vgi.Model.ScriptUnary
-import Vgi.Drive.ScriptParse
+import Vgi.Drive.StreamParse
 /-!
 Line-protocol driver for C04.
 
@@ -10,7 +10,7 @@ Line-protocol driver for C04.
 Byte strings are `x<hex>`. Answer: `<schema> ; <batch> ; <batch> …` (see `showStream`).
 -/
 namespace Vgi.Drive.C04
-open Vgi Vgi.Script Vgi.Drive.ScriptParse
+open Vgi Vgi.Script Vgi.Drive.ScriptParse Vgi.Drive.StreamParse
 
 def showBatch : Batch → String
   | .log l m e r => s!"log {hexArg l} {hexArg m} {showKVs e} {showRid r}"
@@ -33,33 +33,8 @@ def showResponse (o : Outcome) (s : IpcStream) : String :=
   let n := s.batches.length
   " ; ".intercalate (s.schema :: (s.batches.zipIdx.map fun (b, i) => showBatchFor o (i + 1 == n) b))
 
-def pOutcome : List String → Option (Outcome × List String)
-  | "ret" :: v :: r => some (.ret v, r)
-  | "err" :: r => (pErrVal r).map fun (e, r) => (.fail e, r)
-  | "panic" :: r => (pPanicVal r).map fun (p, r) => (.panic p, r)
-  | _ => none
-
-def pTransport : String → Option Transport
-  | "pipe" => some .pipe
-  | "http" => some .http
-  | _ => none
-
-def parseCall (ws : List String) : Option (Transport × UMethod × Bytes × Bytes × UnaryScript) :=
-  match ws with
-  | "call" :: t :: schema :: v :: rest => do
-    let t ← pTransport t
-    let v ← pBool v
-    let (lvl, rest) ← pBytes rest
-    let (rid, rest) ← pBytes rest
-    let (n, rest) ← pNat rest
-    let (logs, rest) ← pLogCalls n rest
-    let (o, rest) ← pOutcome rest
-    if rest ≠ [] then none
-    else pure (t, { resultSchema := schema, isVoid := v }, lvl, rid, { logs := logs, outcome := o })
-  | _ => none
-
 def step (st : Unit) (ws : List String) : Unit × String :=
-  match parseCall ws with
+  match parseUnaryCall ws with
   | some (t, m, lvl, rid, s) => (st, showResponse s.outcome (unaryResponse t m lvl rid s))
   | none => (st, "bad-op")
 
